@@ -1,3 +1,1543 @@
-//! (stub; being written)
+//! M2: independent binary layout walkers (DESIGN §3.2).
+//!
+//! Minimal parsers of the on-disk container formats, written from the layouts.  They never call
+//! into truth (the only thing taken from truth is the `Game` enum as a selector); they return
+//! offsets, counts, ids and raw fields.  All reads are bounds-checked and return `Err(String)`.
+//!
+//! Conventions:
+//! * all offsets in the returned structures are ABSOLUTE file offsets unless the field name says it is
+//!   the raw value stored in the file (`offset`, `*_offset` fields of tables are raw values; the
+//!   `abs`/`slot_offset`/`Instr::offset` ones are absolute).
+//! * `field_offsets` lists `(name, absolute offset, width)` for every fixed-layout field (for
+//!   field-targeted mutation).  Names repeat for repeated structures, in file/table order.
+//! * `Instr::difficulty` is 0xFF where the format has no difficulty byte; this is the value of truth's
+//!   `RawInstr::DEFAULTS.difficulty` (DEFAULT_DIFFICULTY_MASK_BYTE = 0xFF), so a walked `Instr` can be
+//!   compared field by field with a `RawInstr`.
+//! * `Instr::opcode` for the one-byte-opcode layouts (Anm06, Msg) is the byte SIGN-EXTENDED to 16 bits
+//!   (0xFF -> 0xFFFF): the formats define it as a signed byte, and truth does the same (`read_i8 as u16`).
 #![allow(dead_code)]
-pub fn selftest() -> i32 { 2 }
+
+use truth::Game;
+
+// =============================================================================================
+// checked little-endian reads
+
+fn get<'a>(b: &'a [u8], off: usize, n: usize, what: &str) -> Result<&'a [u8], String> {
+    let end = off.checked_add(n).ok_or_else(|| format!("{what}: offset overflow at {off:#x}+{n:#x}"))?;
+    b.get(off..end).ok_or_else(|| format!("{what}: need {n} bytes at {off:#x} but file has {:#x} bytes", b.len()))
+}
+fn u8_at(b: &[u8], off: usize, what: &str) -> Result<u8, String> { Ok(get(b, off, 1, what)?[0]) }
+fn u16_at(b: &[u8], off: usize, what: &str) -> Result<u16, String> { let s = get(b, off, 2, what)?; Ok(u16::from_le_bytes([s[0], s[1]])) }
+fn i16_at(b: &[u8], off: usize, what: &str) -> Result<i16, String> { Ok(u16_at(b, off, what)? as i16) }
+fn u32_at(b: &[u8], off: usize, what: &str) -> Result<u32, String> { let s = get(b, off, 4, what)?; Ok(u32::from_le_bytes([s[0], s[1], s[2], s[3]])) }
+fn i32_at(b: &[u8], off: usize, what: &str) -> Result<i32, String> { Ok(u32_at(b, off, what)? as i32) }
+fn f32_at(b: &[u8], off: usize, what: &str) -> Result<f32, String> { Ok(f32::from_bits(u32_at(b, off, what)?)) }
+fn add(a: usize, b: usize, what: &str) -> Result<usize, String> { a.checked_add(b).ok_or_else(|| format!("{what}: offset overflow")) }
+
+pub type FieldOffsets = Vec<(&'static str, usize, usize)>;
+
+/// Small cursor that records every field it reads into a `FieldOffsets`.
+struct Cur<'a, 'f> { b: &'a [u8], pos: usize, fields: &'f mut FieldOffsets }
+impl<'a, 'f> Cur<'a, 'f> {
+    fn u8(&mut self, name: &'static str) -> Result<u8, String> { let v = u8_at(self.b, self.pos, name)?; self.fields.push((name, self.pos, 1)); self.pos += 1; Ok(v) }
+    fn u16(&mut self, name: &'static str) -> Result<u16, String> { let v = u16_at(self.b, self.pos, name)?; self.fields.push((name, self.pos, 2)); self.pos += 2; Ok(v) }
+    fn i16(&mut self, name: &'static str) -> Result<i16, String> { Ok(self.u16(name)? as i16) }
+    fn u32(&mut self, name: &'static str) -> Result<u32, String> { let v = u32_at(self.b, self.pos, name)?; self.fields.push((name, self.pos, 4)); self.pos += 4; Ok(v) }
+    fn i32(&mut self, name: &'static str) -> Result<i32, String> { Ok(self.u32(name)? as i32) }
+    fn f32(&mut self, name: &'static str) -> Result<f32, String> { Ok(f32::from_bits(self.u32(name)?)) }
+    fn bytes(&mut self, name: &'static str, n: usize) -> Result<&'a [u8], String> { let s = get(self.b, self.pos, n, name)?; self.fields.push((name, self.pos, n)); self.pos += n; Ok(s) }
+}
+
+// =============================================================================================
+// instructions
+
+#[derive(Debug, Clone, PartialEq)]
+pub struct Instr {
+    /// file offset where the instruction header starts
+    pub offset: usize,
+    /// total size in bytes incl. header
+    pub size: usize,
+    pub time: i32,
+    pub opcode: u16,
+    /// 0 where the format has none
+    pub param_mask: u16,
+    /// 0xFF where the format has none (= truth's RawInstr::DEFAULTS.difficulty)
+    pub difficulty: u8,
+    /// timeline arg0 where the format has it (Timeline06 only)
+    pub extra_arg: Option<i16>,
+    /// the argument blob exactly as in the file
+    pub args: Vec<u8>,
+}
+
+/// The instruction header layouts.
+///
+/// | layout      | header                                                                  | terminal                                   |
+/// |-------------|-------------------------------------------------------------------------|--------------------------------------------|
+/// | Anm06, Msg  | time i16, opcode i8, argsize u8                          (4 bytes)       | 4 zero bytes; AMBIGUOUS (a real instr too) |
+/// | Anm07       | opcode i16, size u16 (incl. hdr), time i16, param_mask u16 (8)           | opcode == -1 (written as ffff 0000 0000 0000) |
+/// | Std06       | time i32, opcode i16, ARGsize u16 (always 12)            (8)             | opcode == -1 (written as 20 x ff)          |
+/// | Std10       | time i32, opcode i16, size u16 (incl. hdr)               (8)             | opcode == -1 (written as 20 x ff)          |
+/// | Ecl06/Ecl07 | time i32, opcode u16, size i16 (incl. hdr), zero u8, difficulty u8, param_mask u16 (12) | opcode == 0xffff, after reading `size` bytes |
+/// | Timeline06  | time i16, arg0 i16, opcode u16, size i16 (incl. hdr)     (8)             | (time, arg0) == (-1, 4); only 4 bytes long |
+/// | Timeline08  | time i32, opcode u16, size u8 (incl. hdr), difficulty u8 (8)             | (time,opcode,size,difficulty) == (-1,0,0,0); 8 bytes |
+///
+/// Ecl06 (TH06) and Ecl07 (TH07..TH095) have the same byte layout; they differ only in that the TH06
+/// writer always stores param_mask = 0x00FF.  The walker returns what is in the file for both.
+#[derive(Debug, Clone, Copy, PartialEq, Eq, Hash)]
+pub enum InstrLayout { Anm06, Anm07, Std06, Std10, Msg, Ecl06, Ecl07, Timeline06, Timeline08 }
+
+impl InstrLayout {
+    pub fn header_size(self) -> usize {
+        match self {
+            InstrLayout::Anm06 | InstrLayout::Msg => 4,
+            InstrLayout::Anm07 | InstrLayout::Std06 | InstrLayout::Std10 | InstrLayout::Timeline06 | InstrLayout::Timeline08 => 8,
+            InstrLayout::Ecl06 | InstrLayout::Ecl07 => 12,
+        }
+    }
+    /// true if the terminal instruction cannot be told from a real one (it only counts as terminal when the
+    /// script ends right after it: at `end` or at EOF).
+    pub fn ambiguous_terminal(self) -> bool { matches!(self, InstrLayout::Anm06 | InstrLayout::Msg) }
+}
+
+enum Step {
+    Instr(Instr),
+    /// all-zero instruction of the Anm06/Msg layouts
+    MaybeTerminal(Instr),
+    /// unambiguous terminal; `size` = number of bytes the canonical terminal occupies
+    Terminal { size: usize },
+    Eof,
+}
+
+fn read_one(b: &[u8], off: usize, layout: InstrLayout) -> Result<Step, String> {
+    let hs = layout.header_size();
+    let dflt = |time: i32, opcode: u16, size: usize, args: &[u8]| Instr {
+        offset: off, size, time, opcode, param_mask: 0, difficulty: 0xFF, extra_arg: None, args: args.to_vec(),
+    };
+    match layout {
+        InstrLayout::Anm06 | InstrLayout::Msg => {
+            if off >= b.len() { return Ok(Step::Eof); }
+            let time = i16_at(b, off, "instr time")? as i32;
+            let opcode = u8_at(b, off + 2, "instr opcode")? as i8;
+            let argsize = u8_at(b, off + 3, "instr argsize")? as usize;
+            let args = get(b, off + 4, argsize, "instr args")?;
+            let ins = dflt(time, opcode as i16 as u16, 4 + argsize, args);
+            if time == 0 && opcode == 0 && argsize == 0 { Ok(Step::MaybeTerminal(ins)) } else { Ok(Step::Instr(ins)) }
+        },
+        InstrLayout::Anm07 => {
+            let opcode = i16_at(b, off, "instr opcode")?;
+            let size = u16_at(b, off + 2, "instr size")? as usize;
+            if opcode == -1 { return Ok(Step::Terminal { size: 8 }); }
+            let time = i16_at(b, off + 4, "instr time")? as i32;
+            let mask = u16_at(b, off + 6, "instr param_mask")?;
+            if size < hs { return Err(format!("instr at {off:#x}: size {size} < header size {hs}")); }
+            let args = get(b, off + hs, size - hs, "instr args")?;
+            let mut ins = dflt(time, opcode as u16, size, args);
+            ins.param_mask = mask;
+            Ok(Step::Instr(ins))
+        },
+        InstrLayout::Std06 | InstrLayout::Std10 => {
+            let time = i32_at(b, off, "instr time")?;
+            let opcode = i16_at(b, off + 4, "instr opcode")?;
+            let sz = u16_at(b, off + 6, "instr size")? as usize;
+            if opcode == -1 { return Ok(Step::Terminal { size: 20 }); }
+            let argsize = if layout == InstrLayout::Std06 { sz } else {
+                if sz < hs { return Err(format!("instr at {off:#x}: size {sz} < header size {hs}")); }
+                sz - hs
+            };
+            let args = get(b, off + hs, argsize, "instr args")?;
+            Ok(Step::Instr(dflt(time, opcode as u16, hs + argsize, args)))
+        },
+        InstrLayout::Ecl06 | InstrLayout::Ecl07 => {
+            let time = i32_at(b, off, "instr time")?;
+            let opcode = u16_at(b, off + 4, "instr opcode")?;
+            let size = i16_at(b, off + 6, "instr size")?;
+            let _zero = u8_at(b, off + 8, "instr byte before difficulty")?;
+            let difficulty = u8_at(b, off + 9, "instr difficulty")?;
+            let mask = u16_at(b, off + 10, "instr param_mask")?;
+            if (size as i64) < hs as i64 { return Err(format!("instr at {off:#x}: size {size} < header size {hs}")); }
+            let size = size as usize;
+            let args = get(b, off + hs, size - hs, "instr args")?;
+            if opcode == 0xFFFF { return Ok(Step::Terminal { size }); }
+            let mut ins = dflt(time, opcode, size, args);
+            ins.difficulty = difficulty;
+            ins.param_mask = mask;
+            Ok(Step::Instr(ins))
+        },
+        InstrLayout::Timeline06 => {
+            let time = i16_at(b, off, "instr time")?;
+            let arg0 = i16_at(b, off + 2, "instr arg0")?;
+            if (time, arg0) == (-1, 4) { return Ok(Step::Terminal { size: 4 }); }
+            let opcode = u16_at(b, off + 4, "instr opcode")?;
+            let size = i16_at(b, off + 6, "instr size")?;
+            if (size as i64) < hs as i64 { return Err(format!("instr at {off:#x}: size {size} < header size {hs}")); }
+            let size = size as usize;
+            let args = get(b, off + hs, size - hs, "instr args")?;
+            let mut ins = dflt(time as i32, opcode, size, args);
+            ins.extra_arg = Some(arg0);
+            Ok(Step::Instr(ins))
+        },
+        InstrLayout::Timeline08 => {
+            let time = i32_at(b, off, "instr time")?;
+            let opcode = u16_at(b, off + 4, "instr opcode")?;
+            let size = u8_at(b, off + 6, "instr size")? as usize;
+            let difficulty = u8_at(b, off + 7, "instr difficulty")?;
+            if (time, opcode, size, difficulty) == (-1, 0, 0, 0) { return Ok(Step::Terminal { size: 8 }); }
+            if size < hs { return Err(format!("instr at {off:#x}: size {size} < header size {hs}")); }
+            let args = get(b, off + hs, size - hs, "instr args")?;
+            let mut ins = dflt(time, opcode, size, args);
+            ins.difficulty = difficulty;
+            Ok(Step::Instr(ins))
+        },
+    }
+}
+
+#[derive(Debug, Clone, Copy, PartialEq, Eq)]
+pub enum Stop { Terminal, EndOffset, Eof }
+
+#[derive(Debug, Clone, PartialEq)]
+pub struct InstrWalk {
+    /// terminal excluded
+    pub instrs: Vec<Instr>,
+    /// offset just past the terminal (clamped to the file length), or `end`, or the EOF position
+    pub end: usize,
+    /// (offset, size) of the terminal instruction that was consumed, if any
+    pub terminal: Option<(usize, usize)>,
+    pub stop: Stop,
+}
+
+/// Walk one script.
+///
+/// Script-end rule (the same for every format; the callers decide whether an `end` exists):
+/// * an unambiguous terminal ends the script;
+/// * reaching `end` exactly ends the script; stepping over `end` is an error;
+/// * for the Anm06/Msg layouts an all-zero instruction is the terminal only if the script ends right
+///   after it (at `end` or EOF); otherwise it is a real instruction (`ins_0()` at time 0).  EOF at an
+///   instruction boundary ends the script in these layouts; in the others EOF is an error.
+pub fn walk_instrs_ex(bytes: &[u8], start: usize, end: Option<usize>, layout: InstrLayout) -> Result<InstrWalk, String> {
+    let mut instrs = vec![];
+    let mut pending: Option<Instr> = None; // possible terminal
+    let mut cur = start;
+    loop {
+        if let Some(end) = end {
+            if cur == end { break; }
+            if cur > end { return Err(format!("script starting at {start:#x} reads past its end {end:#x} (now at {cur:#x})")); }
+        }
+        match read_one(bytes, cur, layout)? {
+            Step::Eof => {
+                let terminal = pending.map(|p| (p.offset, p.size));
+                return Ok(InstrWalk { instrs, end: cur, terminal, stop: Stop::Eof });
+            },
+            Step::Terminal { size } => {
+                // (a pending all-zero instr cannot coexist with this: no layout has both kinds)
+                if let Some(p) = pending.take() { instrs.push(p); }
+                let e = add(cur, size, "terminal")?.min(bytes.len().max(cur));
+                return Ok(InstrWalk { instrs, end: e, terminal: Some((cur, size)), stop: Stop::Terminal });
+            },
+            Step::Instr(i) => {
+                if let Some(p) = pending.take() { instrs.push(p); }
+                cur = add(cur, i.size, "instr")?;
+                instrs.push(i);
+            },
+            Step::MaybeTerminal(i) => {
+                if let Some(p) = pending.take() { instrs.push(p); }
+                cur = add(cur, i.size, "instr")?;
+                pending = Some(i);
+            },
+        }
+    }
+    let terminal = pending.map(|p| (p.offset, p.size));
+    Ok(InstrWalk { instrs, end: cur, terminal, stop: Stop::EndOffset })
+}
+
+/// Walk instructions from `start` until the format's terminal instruction / `end` (exclusive) / EOF;
+/// returns the instrs (terminal excluded) and the offset just past the terminal (or `end`).
+pub fn walk_instrs(bytes: &[u8], start: usize, end: Option<usize>, layout: InstrLayout) -> Result<(Vec<Instr>, usize), String> {
+    let w = walk_instrs_ex(bytes, start, end, layout)?;
+    Ok((w.instrs, w.end))
+}
+
+/// Header + args; inverse of the walk.  `offset` and `size` of `ins` are ignored (the size field is
+/// computed from `args.len()`); values are narrowed to the field widths by truncation.
+pub fn build_instr(layout: InstrLayout, ins: &Instr) -> Vec<u8> {
+    let argsize = ins.args.len();
+    let size_field = match layout {
+        InstrLayout::Anm06 | InstrLayout::Msg | InstrLayout::Std06 => argsize,
+        _ => layout.header_size() + argsize,
+    };
+    build_instr_sized(layout, ins, size_field)
+}
+
+/// Like `build_instr` but with an explicit value for the size field (for hand-assembled malformed inputs).
+pub fn build_instr_sized(layout: InstrLayout, ins: &Instr, size_field: usize) -> Vec<u8> {
+    let mut o = vec![];
+    match layout {
+        InstrLayout::Anm06 | InstrLayout::Msg => {
+            o.extend((ins.time as i16).to_le_bytes());
+            o.push(ins.opcode as u8);
+            o.push(size_field as u8);
+        },
+        InstrLayout::Anm07 => {
+            o.extend(ins.opcode.to_le_bytes());
+            o.extend((size_field as u16).to_le_bytes());
+            o.extend((ins.time as i16).to_le_bytes());
+            o.extend(ins.param_mask.to_le_bytes());
+        },
+        InstrLayout::Std06 | InstrLayout::Std10 => {
+            o.extend(ins.time.to_le_bytes());
+            o.extend(ins.opcode.to_le_bytes());
+            o.extend((size_field as u16).to_le_bytes());
+        },
+        InstrLayout::Ecl06 | InstrLayout::Ecl07 => {
+            o.extend(ins.time.to_le_bytes());
+            o.extend(ins.opcode.to_le_bytes());
+            o.extend((size_field as u16).to_le_bytes());
+            o.push(0);
+            o.push(ins.difficulty);
+            o.extend(ins.param_mask.to_le_bytes());
+        },
+        InstrLayout::Timeline06 => {
+            o.extend((ins.time as i16).to_le_bytes());
+            o.extend(ins.extra_arg.unwrap_or(0).to_le_bytes());
+            o.extend(ins.opcode.to_le_bytes());
+            o.extend((size_field as u16).to_le_bytes());
+        },
+        InstrLayout::Timeline08 => {
+            o.extend(ins.time.to_le_bytes());
+            o.extend(ins.opcode.to_le_bytes());
+            o.push(size_field as u8);
+            o.push(ins.difficulty);
+        },
+    }
+    o.extend_from_slice(&ins.args);
+    o
+}
+
+/// The canonical terminal instruction of a layout (what the games' files contain).
+pub fn build_terminal(layout: InstrLayout) -> Vec<u8> {
+    match layout {
+        InstrLayout::Anm06 | InstrLayout::Msg => vec![0; 4],
+        InstrLayout::Anm07 => vec![0xff, 0xff, 0, 0, 0, 0, 0, 0],
+        InstrLayout::Std06 | InstrLayout::Std10 => vec![0xff; 20],
+        InstrLayout::Ecl06 | InstrLayout::Ecl07 => vec![0xff, 0xff, 0xff, 0xff, 0xff, 0xff, 12, 0, 0x00, 0xff, 0xff, 0x00],
+        InstrLayout::Timeline06 => vec![0xff, 0xff, 4, 0],
+        InstrLayout::Timeline08 => vec![0xff, 0xff, 0xff, 0xff, 0, 0, 0, 0],
+    }
+}
+
+/// Convenience for assembling: a fresh `Instr` with the format-neutral defaults.
+pub fn instr(time: i32, opcode: u16, args: &[u8]) -> Instr {
+    Instr { offset: 0, size: 0, time, opcode, param_mask: 0, difficulty: 0xFF, extra_arg: None, args: args.to_vec() }
+}
+
+/// A C string zero-padded to a multiple of `block` bytes (at least one NUL), as used for ANM paths.
+pub fn build_cstring_blocks(s: &[u8], block: usize) -> Vec<u8> {
+    let mut o = s.to_vec();
+    o.push(0);
+    while o.len() % block != 0 { o.push(0); }
+    o
+}
+
+// =============================================================================================
+// ANM
+
+#[derive(Debug, Clone, PartialEq)]
+pub struct AnmSprite {
+    /// absolute offset of the u32 slot in the sprite offset table
+    pub slot_offset: usize,
+    /// value of the slot (relative to the entry)
+    pub offset: u32,
+    /// absolute offset of the 20-byte sprite record
+    pub abs: usize,
+    pub id: u32,
+    pub x: f32, pub y: f32, pub w: f32, pub h: f32,
+}
+
+#[derive(Debug, Clone, PartialEq)]
+pub struct AnmScript {
+    /// absolute offset of the (id i32, offset u32) slot in the script table
+    pub slot_offset: usize,
+    pub id: i32,
+    /// value of the offset slot (relative to the entry)
+    pub offset: u32,
+    /// absolute offset of the first instruction
+    pub abs: usize,
+    /// the absolute end bound that was used (smallest other structure offset above the script), if any
+    pub end_bound: Option<usize>,
+    pub instrs: Vec<Instr>,
+    /// absolute offset just past the terminal (or the bound)
+    pub end: usize,
+    pub terminal: Option<(usize, usize)>,
+}
+
+#[derive(Debug, Clone, PartialEq)]
+pub struct Thtx {
+    /// absolute offset of the "THTX" magic
+    pub offset: usize,
+    pub magic: [u8; 4],
+    pub zero: u16, pub format: u16, pub width: u16, pub height: u16,
+    pub size: u32,
+    /// byte range of the pixel data in the file (clamped to the file length)
+    pub data_start: usize, pub data_end: usize,
+    /// false if the file ends before `size` bytes of data
+    pub data_complete: bool,
+}
+
+#[derive(Debug, Clone, PartialEq)]
+pub struct AnmEntry {
+    /// absolute offset of the entry header
+    pub offset: usize,
+    pub old_header: bool,
+    pub version: u32, pub num_sprites: u32, pub num_scripts: u32,
+    pub rt_textureslot: u32,
+    pub rt_width: u32, pub rt_height: u32, pub rt_format: u32,
+    /// old header only (0 otherwise)
+    pub colorkey: u32,
+    pub name_offset: u32,
+    /// old header only (0 otherwise)
+    pub name2_offset: u32,
+    /// new header only (0 otherwise)
+    pub offset_x: u32, pub offset_y: u32,
+    pub memory_priority: u32, pub thtx_offset: u32, pub has_data: u32,
+    /// new header only (0 otherwise)
+    pub low_res_scale: u32,
+    pub next_offset: u32,
+    /// the unused/padding words of the header, in file order (old: unused_1, unused_2(u16), unused_3; new: 6 padding dwords)
+    pub unused: Vec<u32>,
+    /// path bytes without the trailing NULs
+    pub path: Vec<u8>, pub path2: Option<Vec<u8>>,
+    pub sprites: Vec<AnmSprite>,
+    pub scripts: Vec<AnmScript>,
+    pub thtx: Option<Thtx>,
+    pub field_offsets: FieldOffsets,
+}
+
+/// The 64-byte header comes in two shapes: TH06..TH10 + alcostg (versions 0,2,3,4) use the all-dword "old"
+/// header; TH11 and later (versions 7, 8) the packed "new" one.
+pub fn anm_has_old_header(game: Game) -> bool {
+    matches!(game, Game::Th06 | Game::Th07 | Game::Th08 | Game::Th09 | Game::Th095 | Game::Th10 | Game::Alcostg)
+}
+pub fn anm_instr_layout(game: Game) -> InstrLayout { if game == Game::Th06 { InstrLayout::Anm06 } else { InstrLayout::Anm07 } }
+/// The `version` header field written for a game.
+pub fn anm_version(game: Game) -> u32 {
+    match game {
+        Game::Th06 => 0, Game::Th07 => 2, Game::Th08 | Game::Th09 => 3,
+        Game::Th095 | Game::Th10 | Game::Alcostg => 4,
+        Game::Th11 | Game::Th12 | Game::Th125 | Game::Th128 => 7,
+        _ => 8,
+    }
+}
+
+/// Reads a NUL-terminated string stored in zero-padded 16-byte blocks: blocks are consumed until one ends
+/// in NUL.  Returns (bytes without trailing NULs, number of bytes occupied).
+fn read_block_string(b: &[u8], off: usize, what: &str) -> Result<(Vec<u8>, usize), String> {
+    let mut n = 0;
+    loop {
+        let blk = get(b, add(off, n, what)?, 16, what)?;
+        n += 16;
+        if blk[15] == 0 { break; }
+    }
+    let mut s = b[off..off + n].to_vec();
+    while s.last() == Some(&0) { s.pop(); }
+    Ok((s, n))
+}
+
+/// Entries are chained by `next_offset` (relative to the entry; 0 = last).
+///
+/// Script end: ANM scripts have a terminal instruction, but TH06's is ambiguous and TH095 has files without
+/// one, so every script is also bounded by the smallest offset (relative to the entry) of another structure
+/// of the entry that lies above the script start: name, name2, THTX, any sprite, any script, and the next
+/// entry (`next_offset`).  NOTE: truth's reader uses the same list EXCEPT `next_offset`; for a TH06 file with
+/// several entries and no THTX it therefore runs from the last script of an entry into the next entry's
+/// header (see selftest, case "anm th06 2 entries").
+pub fn walk_anm(bytes: &[u8], game: Game) -> Result<Vec<AnmEntry>, String> {
+    let old = anm_has_old_header(game);
+    let layout = anm_instr_layout(game);
+    let mut entries = vec![];
+    let mut seen = std::collections::BTreeSet::new();
+    let mut pos = 0usize;
+    loop {
+        if !seen.insert(pos) { return Err(format!("loop in entries at {pos:#x}")); }
+        let e = walk_anm_entry(bytes, pos, old, layout)?;
+        let next = e.next_offset;
+        entries.push(e);
+        if next == 0 { break; }
+        pos = add(pos, next as usize, "next_offset")?;
+    }
+    Ok(entries)
+}
+
+fn walk_anm_entry(b: &[u8], pos: usize, old: bool, layout: InstrLayout) -> Result<AnmEntry, String> {
+    let mut fields: FieldOffsets = vec![];
+    let mut c = Cur { b, pos, fields: &mut fields };
+    let mut e = AnmEntry {
+        offset: pos, old_header: old, version: 0, num_sprites: 0, num_scripts: 0, rt_textureslot: 0, rt_width: 0, rt_height: 0,
+        rt_format: 0, colorkey: 0, name_offset: 0, name2_offset: 0, offset_x: 0, offset_y: 0, memory_priority: 0, thtx_offset: 0,
+        has_data: 0, low_res_scale: 0, next_offset: 0, unused: vec![], path: vec![], path2: None, sprites: vec![], scripts: vec![],
+        thtx: None, field_offsets: vec![],
+    };
+    if old {
+        e.num_sprites = c.u32("num_sprites")?;
+        e.num_scripts = c.u32("num_scripts")?;
+        e.rt_textureslot = c.u32("rt_textureslot")?;
+        e.rt_width = c.u32("rt_width")?;
+        e.rt_height = c.u32("rt_height")?;
+        e.rt_format = c.u32("rt_format")?;
+        e.colorkey = c.u32("colorkey")?;
+        e.name_offset = c.u32("name_offset")?;
+        e.unused.push(c.u32("unused_1")?);
+        e.name2_offset = c.u32("name2_offset")?;
+        e.version = c.u32("version")?;
+        e.memory_priority = c.u32("memory_priority")?;
+        e.thtx_offset = c.u32("thtx_offset")?;
+        e.has_data = c.u16("has_data")? as u32;
+        e.unused.push(c.u16("unused_2")? as u32);
+        e.next_offset = c.u32("next_offset")?;
+        e.unused.push(c.u32("unused_3")?);
+    } else {
+        e.version = c.u32("version")?;
+        e.num_sprites = c.u16("num_sprites")? as u32;
+        e.num_scripts = c.u16("num_scripts")? as u32;
+        e.rt_textureslot = c.u16("rt_textureslot")? as u32;
+        e.rt_width = c.u16("rt_width")? as u32;
+        e.rt_height = c.u16("rt_height")? as u32;
+        e.rt_format = c.u16("rt_format")? as u32;
+        e.name_offset = c.u32("name_offset")?;
+        e.offset_x = c.u16("offset_x")? as u32;
+        e.offset_y = c.u16("offset_y")? as u32;
+        e.memory_priority = c.u32("memory_priority")?;
+        e.thtx_offset = c.u32("thtx_offset")?;
+        e.has_data = c.u16("has_data")? as u32;
+        e.low_res_scale = c.u16("low_res_scale")? as u32;
+        e.next_offset = c.u32("next_offset")?;
+        for _ in 0..6 { e.unused.push(c.u32("header_padding")?); }
+    }
+    debug_assert_eq!(c.pos, pos + 64);
+
+    // tables: check the extent before allocating anything
+    let table_bytes = (e.num_sprites as usize).checked_mul(4).and_then(|a| (e.num_scripts as usize).checked_mul(8).and_then(|s| a.checked_add(s)))
+        .ok_or_else(|| "table size overflow".to_string())?;
+    get(b, c.pos, table_bytes, "sprite/script tables")?;
+    let mut sprite_slots = vec![];
+    for _ in 0..e.num_sprites { let so = c.pos; sprite_slots.push((so, c.u32("sprite_table.offset")?)); }
+    let mut script_slots = vec![];
+    for _ in 0..e.num_scripts { let so = c.pos; let id = c.i32("script_table.id")?; let off = c.u32("script_table.offset")?; script_slots.push((so, id, off)); }
+
+    let (path, n) = read_block_string(b, add(pos, e.name_offset as usize, "name_offset")?, "path")?;
+    c.fields.push(("path", pos + e.name_offset as usize, n));
+    e.path = path;
+    if old && e.name2_offset != 0 {
+        let (p2, n) = read_block_string(b, add(pos, e.name2_offset as usize, "name2_offset")?, "path2")?;
+        c.fields.push(("path2", pos + e.name2_offset as usize, n));
+        e.path2 = Some(p2);
+    }
+
+    for &(slot_offset, offset) in &sprite_slots {
+        let abs = add(pos, offset as usize, "sprite offset")?;
+        let mut s = Cur { b, pos: abs, fields: &mut *c.fields };
+        let sp = AnmSprite { slot_offset, offset, abs, id: s.u32("sprite.id")?, x: s.f32("sprite.x")?, y: s.f32("sprite.y")?, w: s.f32("sprite.w")?, h: s.f32("sprite.h")? };
+        e.sprites.push(sp);
+    }
+
+    let mut bounds: Vec<u32> = vec![e.name_offset];
+    if e.thtx_offset != 0 { bounds.push(e.thtx_offset); }
+    if old && e.name2_offset != 0 { bounds.push(e.name2_offset); }
+    if e.next_offset != 0 { bounds.push(e.next_offset); }
+    bounds.extend(sprite_slots.iter().map(|s| s.1));
+    bounds.extend(script_slots.iter().map(|s| s.2));
+    for &(slot_offset, id, offset) in &script_slots {
+        let abs = add(pos, offset as usize, "script offset")?;
+        let end_bound = bounds.iter().copied().filter(|&x| x > offset).min().map(|x| pos + x as usize);
+        let w = walk_instrs_ex(b, abs, end_bound, layout).map_err(|m| format!("entry at {pos:#x}, script at {abs:#x}: {m}"))?;
+        e.scripts.push(AnmScript { slot_offset, id, offset, abs, end_bound, instrs: w.instrs, end: w.end, terminal: w.terminal });
+    }
+
+    if e.thtx_offset != 0 {
+        let t = add(pos, e.thtx_offset as usize, "thtx_offset")?;
+        let mut s = Cur { b, pos: t, fields: &mut *c.fields };
+        let m = s.bytes("thtx.magic", 4)?;
+        let magic = [m[0], m[1], m[2], m[3]];
+        let zero = s.u16("thtx.zero")?;
+        let format = s.u16("thtx.format")?;
+        let width = s.u16("thtx.width")?;
+        let height = s.u16("thtx.height")?;
+        let size = s.u32("thtx.size")?;
+        let data_start = s.pos;
+        let want_end = add(data_start, size as usize, "thtx data")?;
+        let data_end = want_end.min(b.len()).max(data_start.min(b.len()));
+        e.thtx = Some(Thtx { offset: t, magic, zero, format, width, height, size, data_start, data_end, data_complete: want_end <= b.len() });
+    }
+    e.field_offsets = fields;
+    Ok(e)
+}
+
+// =============================================================================================
+// STD
+
+#[derive(Debug, Clone, PartialEq)]
+pub struct StdQuad {
+    pub offset: usize,
+    /// 0 = rect (size 0x1c: pos xyz, size wh), 1 = strip (size 0x24: start xyz, end xyz, width; TH08/TH09)
+    pub kind: i16,
+    /// the size field (incl. the 8-byte quad header)
+    pub size: u16,
+    pub anm_script: u16,
+    /// the word after anm_script (zero in files; an index at run time)
+    pub index: u16,
+    /// all whole dwords after the 8-byte quad header, as floats
+    pub floats: Vec<f32>,
+    /// the quad's bytes, header included
+    pub raw: Vec<u8>,
+}
+
+#[derive(Debug, Clone, PartialEq)]
+pub struct StdObject {
+    /// absolute offset of the u32 slot in the object offset table, and its value
+    pub slot_offset: usize, pub table_offset: u32,
+    /// absolute offset of the object record
+    pub offset: usize,
+    pub id: u16, pub layer: u16,
+    pub pos: [f32; 3], pub size: [f32; 3],
+    pub quads: Vec<StdQuad>,
+    /// offset and size field of the terminal quad (kind -1)
+    pub quad_terminal: (usize, u16),
+    /// absolute offset just past the terminal quad
+    pub end: usize,
+}
+
+#[derive(Debug, Clone, PartialEq)]
+pub struct StdInstance { pub offset: usize, pub object_id: u16, pub unknown: u16, pub pos: [f32; 3] }
+
+#[derive(Debug, Clone, PartialEq)]
+pub struct StdWalk {
+    pub num_objects: u16,
+    /// header field: total number of quads in all objects
+    pub num_quads: u16,
+    pub instances_offset: u32, pub script_offset: u32, pub unknown: u32,
+    /// TH06..TH09: 9 strings of 128 bytes (stage_name, bgm names 0..3, bgm paths 0..3); TH095+: 1 (anm_path).  Raw 128 bytes each.
+    pub strings: Vec<Vec<u8>>,
+    pub objects: Vec<StdObject>,
+    pub instances: Vec<StdInstance>,
+    /// offset of the terminal instance record (object_id 0xffff)
+    pub instances_terminal: usize,
+    pub script: Vec<Instr>,
+    pub script_end: usize,
+    pub script_terminal: Option<(usize, usize)>,
+    pub field_offsets: FieldOffsets,
+}
+
+pub fn std_is_06_format(game: Game) -> bool { matches!(game, Game::Th06 | Game::Th07 | Game::Th08 | Game::Th09) }
+pub fn std_instr_layout(game: Game) -> InstrLayout { if std_is_06_format(game) { InstrLayout::Std06 } else { InstrLayout::Std10 } }
+
+/// Trim a fixed-size string field at its first NUL.
+pub fn trim_nul(s: &[u8]) -> &[u8] { &s[..s.iter().position(|&c| c == 0).unwrap_or(s.len())] }
+
+/// Layout: header (num_objects u16, num_quads u16, instances_offset u32, script_offset u32, unknown u32),
+/// 128-byte strings, object offset table, then (by offset) objects, instances and the script.
+/// Objects: id u16, layer u16, pos 3f, size 3f, quads until a quad of kind -1.
+/// Instances: 16-byte records (object_id u16, unknown u16, pos 3f) until object_id == 0xffff.
+/// The script runs to its terminal instruction (opcode -1); there is no end bound.
+pub fn walk_std(bytes: &[u8], game: Game) -> Result<StdWalk, String> {
+    let b = bytes;
+    let mut fields: FieldOffsets = vec![];
+    let mut c = Cur { b, pos: 0, fields: &mut fields };
+    let num_objects = c.u16("num_objects")?;
+    let num_quads = c.u16("num_quads")?;
+    let instances_offset = c.u32("instances_offset")?;
+    let script_offset = c.u32("script_offset")?;
+    let unknown = c.u32("unknown")?;
+    let mut strings = vec![];
+    if std_is_06_format(game) {
+        strings.push(c.bytes("stage_name", 128)?.to_vec());
+        for _ in 0..4 { strings.push(c.bytes("bgm_name", 128)?.to_vec()); }
+        for _ in 0..4 { strings.push(c.bytes("bgm_path", 128)?.to_vec()); }
+    } else {
+        strings.push(c.bytes("anm_path", 128)?.to_vec());
+    }
+    get(b, c.pos, num_objects as usize * 4, "object offset table")?;
+    let mut slots = vec![];
+    for _ in 0..num_objects { let so = c.pos; slots.push((so, c.u32("object_table.offset")?)); }
+
+    let mut objects = vec![];
+    for &(slot_offset, table_offset) in &slots {
+        let offset = table_offset as usize;
+        let mut o = Cur { b, pos: offset, fields: &mut *c.fields };
+        let id = o.u16("object.id")?;
+        let layer = o.u16("object.layer")?;
+        let pos = [o.f32("object.pos")?, o.f32("object.pos")?, o.f32("object.pos")?];
+        let size = [o.f32("object.size")?, o.f32("object.size")?, o.f32("object.size")?];
+        let mut quads = vec![];
+        let quad_terminal;
+        loop {
+            let qoff = o.pos;
+            let kind = o.i16("quad.kind")?;
+            let qsize = o.u16("quad.size")?;
+            if kind == -1 { quad_terminal = (qoff, qsize); break; }
+            if qsize < 8 { return Err(format!("quad at {qoff:#x}: size {qsize} < 8")); }
+            let anm_script = o.u16("quad.anm_script")?;
+            let index = o.u16("quad.index")?;
+            let raw = get(b, qoff, qsize as usize, "quad")?.to_vec();
+            let mut floats = vec![];
+            while o.pos + 4 <= qoff + qsize as usize { floats.push(o.f32("quad.float")?); }
+            o.pos = qoff + qsize as usize;
+            quads.push(StdQuad { offset: qoff, kind, size: qsize, anm_script, index, floats, raw });
+        }
+        let end = o.pos;
+        objects.push(StdObject { slot_offset, table_offset, offset, id, layer, pos, size, quads, quad_terminal, end });
+    }
+
+    let mut instances = vec![];
+    let mut i = Cur { b, pos: instances_offset as usize, fields: &mut *c.fields };
+    let instances_terminal;
+    loop {
+        let offset = i.pos;
+        let object_id = i.u16("instance.object_id")?;
+        let unk = i.u16("instance.unknown")?;
+        if object_id == 0xffff { instances_terminal = offset; break; }
+        let pos = [i.f32("instance.pos")?, i.f32("instance.pos")?, i.f32("instance.pos")?];
+        instances.push(StdInstance { offset, object_id, unknown: unk, pos });
+    }
+
+    let w = walk_instrs_ex(b, script_offset as usize, None, std_instr_layout(game)).map_err(|m| format!("script: {m}"))?;
+    Ok(StdWalk {
+        num_objects, num_quads, instances_offset, script_offset, unknown, strings, objects, instances, instances_terminal,
+        script: w.instrs, script_end: w.end, script_terminal: w.terminal, field_offsets: fields,
+    })
+}
+
+// =============================================================================================
+// MSG (stage MSG and ending MSG share the container and the instruction layout)
+
+#[derive(Debug, Clone, PartialEq)]
+pub struct MsgTableEntry { pub slot_offset: usize, pub script_offset: u32, pub flags: Option<u32> }
+
+#[derive(Debug, Clone, PartialEq)]
+pub struct MsgWalk {
+    pub table_len: u32,
+    pub table: Vec<MsgTableEntry>,
+    /// one per DISTINCT nonzero script offset, sorted by offset: (start, instrs, end)
+    pub scripts: Vec<(usize, Vec<Instr>, usize)>,
+    /// per script: the terminal consumed (offset, size), if any
+    pub terminals: Vec<Option<(usize, usize)>>,
+    pub field_offsets: FieldOffsets,
+}
+
+/// The table has a flags dword per entry from TH09 on.
+pub fn msg_table_has_flags(game: Game) -> bool { !matches!(game, Game::Th06 | Game::Th07 | Game::Th08) }
+
+/// Layout: count u32, then per entry offset u32 (+ flags u32 from TH09).  Offset 0 = no script.
+/// Script end: the terminal is ambiguous (4 zero bytes = `ins_0()` at time 0), so a script ends at the next
+/// larger distinct script offset, and the last one at EOF.  `ending` does not change the layout.
+pub fn walk_msg(bytes: &[u8], game: Game, ending: bool) -> Result<MsgWalk, String> {
+    let _ = ending;
+    let b = bytes;
+    let mut fields: FieldOffsets = vec![];
+    let mut c = Cur { b, pos: 0, fields: &mut fields };
+    let table_len = c.u32("table_len")?;
+    let has_flags = msg_table_has_flags(game);
+    let per = if has_flags { 8 } else { 4 };
+    let total = (table_len as usize).checked_mul(per).ok_or_else(|| "table size overflow".to_string())?;
+    get(b, c.pos, total, "script table")?;
+    let mut table = vec![];
+    for _ in 0..table_len {
+        let slot_offset = c.pos;
+        let script_offset = c.u32("table.offset")?;
+        let flags = if has_flags { Some(c.u32("table.flags")?) } else { None };
+        table.push(MsgTableEntry { slot_offset, script_offset, flags });
+    }
+    let distinct: std::collections::BTreeSet<u32> = table.iter().map(|e| e.script_offset).filter(|&o| o != 0).collect();
+    let distinct: Vec<u32> = distinct.into_iter().collect();
+    let mut scripts = vec![];
+    let mut terminals = vec![];
+    for (k, &off) in distinct.iter().enumerate() {
+        let end = distinct.get(k + 1).map(|&e| e as usize);
+        let w = walk_instrs_ex(b, off as usize, end, InstrLayout::Msg).map_err(|m| format!("script at {off:#x}: {m}"))?;
+        scripts.push((off as usize, w.instrs, w.end));
+        terminals.push(w.terminal);
+    }
+    Ok(MsgWalk { table_len, table, scripts, terminals, field_offsets: fields })
+}
+
+// =============================================================================================
+// mission.msg (TH095, TH125)
+
+#[derive(Debug, Clone, PartialEq)]
+pub struct MissionEntry {
+    pub offset: usize,
+    pub stage: u16, pub scene: u16,
+    /// TH125 only (0 for TH095)
+    pub player: u16, pub unknown_1: u8, pub unknown_2: u8,
+    /// TH095 only (0 for TH125)
+    pub face: u32,
+    /// TH095: [point]; TH125: [point_1, point_2]
+    pub points: Vec<u32>,
+    /// TH125: 3 pairs flattened (6 values); TH095: empty
+    pub furigana: Vec<u32>,
+    /// the 64-byte text lines exactly as in the file (masked); 3 for TH095, 6 for TH125
+    pub text_raw: Vec<Vec<u8>>,
+    /// DERIVED: the lines with the additive mask removed (still 64 bytes, NUL padded).
+    /// mask byte k of line n: m_0 = 7*stage + 11*scene + 13*player + 58, v_0 = 23*(n+1); m_{k+1} = m_k + v_k, v_{k+1} = v_k + 1 (all mod 256);
+    /// plain = raw + m (mod 256).
+    pub text_plain: Vec<Vec<u8>>,
+}
+
+#[derive(Debug, Clone, PartialEq)]
+pub struct MissionWalk {
+    pub num_entries: u32,
+    /// the offset table (raw values).  Entries are nevertheless stored back to back right after the table,
+    /// and that is where they are read from (truth does the same and only warns about odd table values).
+    pub table: Vec<u32>,
+    pub entries: Vec<MissionEntry>,
+    pub end: usize,
+    pub field_offsets: FieldOffsets,
+}
+
+pub fn mission_entry_size(game: Game) -> Result<usize, String> {
+    match game { Game::Th095 => Ok(12 + 64 * 3), Game::Th125 => Ok(40 + 64 * 6), g => Err(format!("no mission.msg in {}", g.as_str())) }
+}
+
+pub fn mission_unmask(stage: u16, scene: u16, player: u16, line: usize, raw: &[u8]) -> Vec<u8> {
+    let mut m = (7u32 * (stage as u8 as u32) + 11 * (scene as u8 as u32) + 13 * (player as u8 as u32) + 58) as u8;
+    let mut v = (23u32 * ((line as u8).wrapping_add(1) as u32)) as u8;
+    raw.iter().map(|&r| { let p = r.wrapping_add(m); m = m.wrapping_add(v); v = v.wrapping_add(1); p }).collect()
+}
+
+pub fn walk_mission(bytes: &[u8], game: Game) -> Result<MissionWalk, String> {
+    let esize = mission_entry_size(game)?;
+    let b = bytes;
+    let mut fields: FieldOffsets = vec![];
+    let mut c = Cur { b, pos: 0, fields: &mut fields };
+    let num_entries = c.u32("num_entries")?;
+    let total = (num_entries as usize).checked_mul(4 + esize).ok_or_else(|| "size overflow".to_string())?;
+    get(b, c.pos, total, "offset table and entries")?;
+    let mut table = vec![];
+    for _ in 0..num_entries { table.push(c.u32("table.offset")?); }
+    let mut entries = vec![];
+    for _ in 0..num_entries {
+        let offset = c.pos;
+        let stage = c.u16("entry.stage")?;
+        let scene = c.u16("entry.scene")?;
+        let (mut player, mut unknown_1, mut unknown_2, mut face) = (0, 0, 0, 0);
+        let (mut points, mut furigana) = (vec![], vec![]);
+        let nlines;
+        if game == Game::Th095 {
+            face = c.u32("entry.face")?;
+            points.push(c.u32("entry.point")?);
+            nlines = 3;
+        } else {
+            player = c.u16("entry.player")?;
+            unknown_1 = c.u8("entry.unknown_1")?;
+            unknown_2 = c.u8("entry.unknown_2")?;
+            points.push(c.u32("entry.point_1")?);
+            points.push(c.u32("entry.point_2")?);
+            for _ in 0..6 { furigana.push(c.u32("entry.furigana")?); }
+            nlines = 6;
+        }
+        let mut text_raw = vec![];
+        let mut text_plain = vec![];
+        for line in 0..nlines {
+            let raw = c.bytes("entry.text", 64)?.to_vec();
+            text_plain.push(mission_unmask(stage, scene, player, line, &raw));
+            text_raw.push(raw);
+        }
+        debug_assert_eq!(c.pos, offset + esize);
+        entries.push(MissionEntry { offset, stage, scene, player, unknown_1, unknown_2, face, points, furigana, text_raw, text_plain });
+    }
+    let end = c.pos;
+    Ok(MissionWalk { num_entries, table, entries, end, field_offsets: fields })
+}
+
+// =============================================================================================
+// old ECL (TH06, TH07, TH08, TH09, TH095)
+
+#[derive(Debug, Clone, PartialEq)]
+pub struct EclWalk {
+    /// TH08/TH095: 0x800, TH09: 0x900, none in TH06/TH07
+    pub magic: Option<u32>,
+    pub num_subs: u16,
+    /// the word after num_subs: TH06 zero; TH07/TH08/TH095 number of timelines; TH09 length of the timeline array
+    pub num_timelines_field: u16,
+    /// the timeline offset array as stored (TH06: 3 slots, TH07/08/095: 16 slots, TH09: `num_timelines_field` slots)
+    pub timeline_offsets: Vec<u32>,
+    pub sub_offsets: Vec<u32>,
+    /// how many leading slots of `timeline_offsets` are timelines: the nonzero prefix, minus one in TH07/08/095 where
+    /// the last nonzero slot holds the end-of-file offset
+    pub num_timelines: usize,
+    pub subs: Vec<Vec<Instr>>,
+    pub timelines: Vec<Vec<Instr>>,
+    /// offsets just past each sub's / timeline's terminal
+    pub sub_ends: Vec<usize>, pub timeline_ends: Vec<usize>,
+    pub sub_layout: InstrLayout, pub timeline_layout: InstrLayout,
+    pub field_offsets: FieldOffsets,
+}
+
+pub fn ecl_sub_layout(game: Game) -> InstrLayout { if game == Game::Th06 { InstrLayout::Ecl06 } else { InstrLayout::Ecl07 } }
+pub fn ecl_timeline_layout(game: Game) -> InstrLayout { if matches!(game, Game::Th06 | Game::Th07) { InstrLayout::Timeline06 } else { InstrLayout::Timeline08 } }
+
+/// Layout: [magic u32], num_subs u16, timelines word u16, timeline offset array, sub offset array; subs and
+/// timelines each run to their terminal instruction (no end bounds are used).
+pub fn walk_ecl(bytes: &[u8], game: Game) -> Result<EclWalk, String> {
+    let (magic_expected, tl_slots, last_is_eof): (Option<u32>, Option<usize>, bool) = match game {
+        Game::Th06 => (None, Some(3), false),
+        Game::Th07 => (None, Some(16), true),
+        Game::Th08 | Game::Th095 => (Some(0x800), Some(16), true),
+        Game::Th09 => (Some(0x900), None, false),
+        g => return Err(format!("walk_ecl: {} is not an old-format ECL game", g.as_str())),
+    };
+    let b = bytes;
+    let mut fields: FieldOffsets = vec![];
+    let mut c = Cur { b, pos: 0, fields: &mut fields };
+    let magic = match magic_expected { Some(_) => Some(c.u32("magic")?), None => None };
+    let num_subs = c.u16("num_subs")?;
+    let num_timelines_field = c.u16("num_timelines")?;
+    let slots = tl_slots.unwrap_or(num_timelines_field as usize);
+    get(b, c.pos, (slots + num_subs as usize) * 4, "offset tables")?;
+    let mut timeline_offsets = vec![];
+    for _ in 0..slots { timeline_offsets.push(c.u32("timeline_table.offset")?); }
+    let mut sub_offsets = vec![];
+    for _ in 0..num_subs { sub_offsets.push(c.u32("sub_table.offset")?); }
+    let prefix = timeline_offsets.iter().position(|&x| x == 0).unwrap_or(timeline_offsets.len());
+    let num_timelines = if last_is_eof { prefix.saturating_sub(1) } else { prefix };
+
+    let (sub_layout, timeline_layout) = (ecl_sub_layout(game), ecl_timeline_layout(game));
+    let (mut subs, mut sub_ends, mut timelines, mut timeline_ends) = (vec![], vec![], vec![], vec![]);
+    for (k, &off) in sub_offsets.iter().enumerate() {
+        let w = walk_instrs_ex(b, off as usize, None, sub_layout).map_err(|m| format!("sub {k} at {off:#x}: {m}"))?;
+        subs.push(w.instrs); sub_ends.push(w.end);
+    }
+    for (k, &off) in timeline_offsets[..num_timelines].iter().enumerate() {
+        let w = walk_instrs_ex(b, off as usize, None, timeline_layout).map_err(|m| format!("timeline {k} at {off:#x}: {m}"))?;
+        timelines.push(w.instrs); timeline_ends.push(w.end);
+    }
+    Ok(EclWalk {
+        magic, num_subs, num_timelines_field, timeline_offsets, sub_offsets, num_timelines, subs, timelines, sub_ends, timeline_ends,
+        sub_layout, timeline_layout, field_offsets: fields,
+    })
+}
+
+// =============================================================================================
+// selftest: cross-check the walkers against truth's own readers on the unchanged tree
+
+use std::io::Cursor;
+use truth::io::BinReader;
+use truth::llir::RawInstr;
+use crate::drive::{self, CompileOpts, Kind, Tool};
+
+/// collects disagreements for one file
+struct Cmp { errs: Vec<String>, n: usize }
+impl Cmp {
+    fn new() -> Cmp { Cmp { errs: vec![], n: 0 } }
+    fn eq<T: PartialEq + std::fmt::Debug>(&mut self, what: &str, walker: T, truth: T) {
+        self.n += 1;
+        if walker != truth && self.errs.len() < 8 { self.errs.push(format!("{what}: walker {walker:?} != truth {truth:?}")); }
+    }
+    fn fail(&mut self, msg: String) { self.errs.push(msg); }
+}
+
+type InstrKey = (i32, u16, u16, u8, Option<i16>, Vec<u8>);
+fn key_m2(i: &Instr) -> InstrKey { (i.time, i.opcode, i.param_mask, i.difficulty, i.extra_arg, i.args.clone()) }
+fn key_truth(i: &RawInstr) -> InstrKey { (i.time, i.opcode, i.param_mask, i.difficulty, i.extra_arg, i.args_blob.clone()) }
+
+fn cmp_instrs(c: &mut Cmp, what: &str, mine: &[Instr], theirs: &[RawInstr]) {
+    c.eq(&format!("{what}: instr count"), mine.len(), theirs.len());
+    for (k, (a, b)) in mine.iter().zip(theirs).enumerate() {
+        c.eq(&format!("{what}: instr {k}"), key_m2(a), key_truth(b));
+        c.eq(&format!("{what}: instr {k} pop/arg_count"), (0u8, 0u8), (b.pop, b.arg_count));
+    }
+}
+
+/// builder/walker inverse check + contiguity, on walked instructions
+fn check_rebuild(c: &mut Cmp, what: &str, bytes: &[u8], layout: InstrLayout, instrs: &[Instr], terminal: Option<(usize, usize)>) {
+    let mut expect_off = instrs.first().map(|i| i.offset);
+    for (k, i) in instrs.iter().enumerate() {
+        c.eq(&format!("{what}: instr {k} contiguous offset"), Some(i.offset), expect_off);
+        expect_off = Some(i.offset + i.size);
+        let rebuilt = build_instr(layout, i);
+        let orig = bytes.get(i.offset..i.offset + i.size).map(|s| s.to_vec());
+        // (the old-ECL header has one byte that is not part of `Instr`: compare with it zeroed)
+        c.eq(&format!("{what}: instr {k} build_instr == file bytes"), Some(rebuilt), orig);
+    }
+    if let Some((off, size)) = terminal {
+        let t = build_terminal(layout);
+        let n = t.len().min(size).min(bytes.len().saturating_sub(off));
+        if matches!(layout, InstrLayout::Anm07) {
+            c.eq(&format!("{what}: terminal opcode"), &bytes[off..off + 2], &t[..2]);
+        } else {
+            c.eq(&format!("{what}: terminal bytes"), &bytes[off..off + n], &t[..n]);
+        }
+    }
+}
+
+fn check_fields(c: &mut Cmp, what: &str, bytes: &[u8], fields: &FieldOffsets) {
+    for &(name, off, w) in fields {
+        if w == 0 || off.checked_add(w).map_or(true, |e| e > bytes.len()) { c.fail(format!("{what}: field {name} at {off:#x}+{w} outside file")); }
+    }
+    c.eq(&format!("{what}: has field offsets"), fields.is_empty(), false);
+}
+
+fn sjis(b: &[u8]) -> String { encoding_rs::SHIFT_JIS.decode_without_bom_handling(b).0.into_owned() }
+
+/// run one of truth's readers on `bytes`; Err = (rendered diagnostics or panic text)
+fn truth_read<T>(name: &str, bytes: &[u8], f: impl FnOnce(&mut BinReader) -> Result<T, truth::ErrorReported>) -> Result<T, String> {
+    let mut scope = truth::Builder::new().capture_diagnostics(true).build();
+    let mut truth = scope.truth();
+    let r = crate::common::catch(|| {
+        let emitter = truth.ctx().emitter;
+        let mut r = BinReader::from_reader(emitter, name, Cursor::new(bytes.to_vec()));
+        f(&mut r).map_err(|e| e.ignore())
+    });
+    let diag = truth.get_captured_diagnostics().unwrap_or_default();
+    let first = diag.lines().find(|l| l.starts_with("error") || l.starts_with("bug")).unwrap_or("").to_string();
+    match r {
+        Ok(Ok(v)) => Ok(v),
+        Ok(Err(())) => Err(format!("truth reader failed: {first}")),
+        Err(p) => Err(format!("truth reader panicked: {}", p.text)),
+    }
+}
+
+fn f3(a: [f32; 3]) -> [u32; 3] { [a[0].to_bits(), a[1].to_bits(), a[2].to_bits()] }
+
+fn cmp_anm(c: &mut Cmp, bytes: &[u8], game: Game, w: &[AnmEntry], t: &truth::AnmFile) {
+    let layout = anm_instr_layout(game);
+    c.eq("entry count", w.len(), t.entries.len());
+    let mut next_auto = 0u32; // sprite auto-numbering across entries (an omitted id = previous + 1)
+    for (k, (m, e)) in w.iter().zip(&t.entries).enumerate() {
+        let p = format!("entry {k}");
+        check_fields(c, &p, bytes, &m.field_offsets);
+        c.eq(&format!("{p}: version"), m.version, anm_version(game));
+        c.eq(&format!("{p}: path"), sjis(&m.path), e.path.value.clone());
+        c.eq(&format!("{p}: path2"), m.path2.as_ref().map(|x| sjis(x)), e.path_2.as_ref().map(|x| x.value.clone()));
+        let s = &e.specs;
+        c.eq(&format!("{p}: rt w/h/format/colorkey"), (m.rt_width, m.rt_height, m.rt_format, m.colorkey), (s.rt_width, s.rt_height, s.rt_format, s.colorkey));
+        c.eq(&format!("{p}: offset_x/y, memory_priority, low_res_scale"), (m.offset_x, m.offset_y, m.memory_priority, m.low_res_scale != 0), (s.offset_x, s.offset_y, s.memory_priority, s.low_res_scale));
+        c.eq(&format!("{p}: has thtx"), m.thtx.is_some(), e.has_thtx_section());
+        if let Some(th) = &m.thtx {
+            c.eq(&format!("{p}: thtx magic"), &th.magic[..], &b"THTX"[..]);
+            c.eq(&format!("{p}: thtx w/h/format"), (Some(th.width as u32), Some(th.height as u32), Some(th.format as u32)), (e.img_width(), e.img_height(), e.img_format()));
+            c.eq(&format!("{p}: thtx data"), Some(&bytes[th.data_start..th.data_end]), e.img_data());
+        }
+        // truth keys sprites by id inside an entry: duplicates collapse onto the first position, last value wins
+        let mut collapsed: Vec<&AnmSprite> = vec![];
+        for sp in &m.sprites {
+            match collapsed.iter().position(|x| x.id == sp.id) { Some(i) => collapsed[i] = sp, None => collapsed.push(sp) }
+        }
+        c.eq(&format!("{p}: sprite count (distinct ids)"), collapsed.len(), e.sprites.len());
+        c.eq(&format!("{p}: num_sprites"), m.num_sprites as usize, m.sprites.len());
+        for (j, (a, (name, b))) in collapsed.iter().zip(&e.sprites).enumerate() {
+            let actual = b.id.unwrap_or(next_auto);
+            next_auto = actual.wrapping_add(1);
+            c.eq(&format!("{p}: sprite {j} id"), a.id, actual);
+            c.eq(&format!("{p}: sprite {j} name"), format!("sprite{}", a.id), name.value.to_string());
+            c.eq(&format!("{p}: sprite {j} xywh"), [a.x.to_bits(), a.y.to_bits(), a.w.to_bits(), a.h.to_bits()], [b.offset[0].to_bits(), b.offset[1].to_bits(), b.size[0].to_bits(), b.size[1].to_bits()]);
+        }
+        c.eq(&format!("{p}: script count"), m.scripts.len(), e.scripts.len());
+        for (j, (a, (_, b))) in m.scripts.iter().zip(&e.scripts).enumerate() {
+            let q = format!("{p} script {j}");
+            c.eq(&format!("{q}: id"), a.id, b.id);
+            c.eq(&format!("{q}: file offset"), Some(a.abs as u64), b.script.file_offset);
+            cmp_instrs(c, &q, &a.instrs, &b.script.instrs);
+            check_rebuild(c, &q, bytes, layout, &a.instrs, a.terminal);
+        }
+    }
+}
+
+fn cmp_std(c: &mut Cmp, bytes: &[u8], game: Game, m: &StdWalk, t: &truth::StdFile) {
+    check_fields(c, "std", bytes, &m.field_offsets);
+    c.eq("unknown", m.unknown, t.unknown);
+    let strs: Vec<String> = m.strings.iter().map(|s| sjis(trim_nul(s))).collect();
+    let theirs: Vec<String> = match &t.extra {
+        truth::std::StdExtra::Th06 { stage_name, bgm } => {
+            let mut v = vec![stage_name.value.clone()];
+            v.extend(bgm.iter().map(|b| b.name.value.clone()));
+            v.extend(bgm.iter().map(|b| b.path.value.clone()));
+            v
+        },
+        truth::std::StdExtra::Th10 { anm_path } => vec![anm_path.value.clone()],
+    };
+    c.eq("strings", strs, theirs);
+    c.eq("object count", m.objects.len(), t.objects.len());
+    c.eq("num_objects", m.num_objects as usize, m.objects.len());
+    c.eq("num_quads == total quads", m.num_quads as usize, m.objects.iter().map(|o| o.quads.len()).sum::<usize>());
+    for (k, (a, (name, b))) in m.objects.iter().zip(&t.objects).enumerate() {
+        let p = format!("object {k}");
+        c.eq(&format!("{p}: name"), format!("object{k}"), name.value.to_string());
+        c.eq(&format!("{p}: layer/pos/size"), (a.layer, f3(a.pos), f3(a.size)), (b.layer, f3(b.pos), f3(b.size)));
+        c.eq(&format!("{p}: quad count"), a.quads.len(), b.quads.len());
+        for (j, (qa, qb)) in a.quads.iter().zip(&b.quads).enumerate() {
+            let (kind, fl): (i16, Vec<f32>) = match qb.extra {
+                truth::std::QuadExtra::Rect { pos, size } => (0, vec![pos[0], pos[1], pos[2], size[0], size[1]]),
+                truth::std::QuadExtra::Strip { start, end, width } => (1, vec![start[0], start[1], start[2], end[0], end[1], end[2], width]),
+            };
+            let bits = |v: &[f32]| v.iter().map(|x| x.to_bits()).collect::<Vec<_>>();
+            c.eq(&format!("{p} quad {j}"), (qa.kind, qa.anm_script, bits(&qa.floats)), (kind, qb.anm_script, bits(&fl)));
+            c.eq(&format!("{p} quad {j} size field"), qa.size as usize, qa.raw.len());
+        }
+    }
+    c.eq("instance count", m.instances.len(), t.instances.len());
+    for (k, (a, b)) in m.instances.iter().zip(&t.instances).enumerate() {
+        c.eq(&format!("instance {k}"), (format!("object{}", a.object_id), a.unknown, f3(a.pos)), (b.object.value.to_string(), b.unknown, f3(b.pos)));
+    }
+    c.eq("script file offset", Some(m.script_offset as u64), t.script.file_offset);
+    cmp_instrs(c, "script", &m.script, &t.script.instrs);
+    check_rebuild(c, "script", bytes, std_instr_layout(game), &m.script, m.script_terminal);
+}
+
+fn cmp_msg(c: &mut Cmp, bytes: &[u8], m: &MsgWalk, t: &truth::MsgFile) {
+    check_fields(c, "msg", bytes, &m.field_offsets);
+    c.eq("table len", m.table.len(), t.dense_table.len());
+    for (k, (a, b)) in m.table.iter().zip(&t.dense_table).enumerate() {
+        // truth names a script after the first table index that refers to its offset
+        let expect = if a.script_offset == 0 { None } else {
+            Some(format!("script{}", m.table.iter().filter(|e| e.script_offset != 0).position(|e| e.script_offset == a.script_offset).unwrap()))
+        };
+        let theirs = match &b.script.value { truth::msg::ScriptTableOffset::Zero => None, truth::msg::ScriptTableOffset::Name(i) => Some(i.to_string()) };
+        c.eq(&format!("table {k}: script"), expect, theirs);
+        c.eq(&format!("table {k}: flags"), a.flags.unwrap_or(0), b.flags.value);
+    }
+    c.eq("script count", m.scripts.len(), t.scripts.len());
+    for (k, ((start, instrs, _end), (_, b))) in m.scripts.iter().zip(&t.scripts).enumerate() {
+        let p = format!("script {k}");
+        c.eq(&format!("{p}: file offset"), Some(*start as u64), b.file_offset);
+        cmp_instrs(c, &p, instrs, &b.instrs);
+        check_rebuild(c, &p, bytes, InstrLayout::Msg, instrs, m.terminals[k]);
+    }
+}
+
+fn cmp_mission(c: &mut Cmp, bytes: &[u8], game: Game, m: &MissionWalk, t: &truth::MissionMsgFile) {
+    check_fields(c, "mission", bytes, &m.field_offsets);
+    let esize = mission_entry_size(game).unwrap_or(0);
+    for (k, &o) in m.table.iter().enumerate() { c.eq(&format!("table {k}"), o as usize, 4 + 4 * m.table.len() + esize * k); }
+    for (k, e) in m.entries.iter().enumerate() { c.eq(&format!("entry {k} offset == table value"), e.offset, m.table[k] as usize); }
+    c.eq("end == file length", m.end, bytes.len());
+    let text = |e: &MissionEntry| e.text_plain.iter().map(|l| sjis(trim_nul(l))).collect::<Vec<_>>();
+    match t {
+        truth::MissionMsgFile::Th095(f) => {
+            c.eq("entry count", m.entries.len(), f.entries.len());
+            for (k, (a, b)) in m.entries.iter().zip(&f.entries).enumerate() {
+                c.eq(&format!("entry {k} fields"), (a.stage, a.scene, a.face, a.points.clone()), (b.stage, b.scene, b.face, vec![b.point]));
+                c.eq(&format!("entry {k} text"), text(a), b.text.iter().map(|s| s.value.clone()).collect());
+            }
+        },
+        truth::MissionMsgFile::Th125(f) => {
+            c.eq("entry count", m.entries.len(), f.entries.len());
+            for (k, (a, b)) in m.entries.iter().zip(&f.entries).enumerate() {
+                c.eq(&format!("entry {k} fields"), (a.stage, a.scene, a.player, a.unknown_1, a.unknown_2, a.points.clone(), a.furigana.clone()),
+                     (b.stage, b.scene, b.player, b.unknown_1, b.unknown_2, vec![b.point_1, b.point_2], b.furigana.iter().flatten().copied().collect()));
+                c.eq(&format!("entry {k} text"), text(a), b.text.iter().map(|s| s.value.clone()).collect());
+            }
+        },
+    }
+}
+
+fn cmp_ecl(c: &mut Cmp, bytes: &[u8], m: &EclWalk, t: &truth::OldeEclFile) {
+    check_fields(c, "ecl", bytes, &m.field_offsets);
+    c.eq("sub count", m.subs.len(), t.subs.len());
+    for (k, (a, (name, b))) in m.subs.iter().zip(&t.subs).enumerate() {
+        let p = format!("sub {k}");
+        c.eq(&format!("{p}: name"), format!("sub{k}"), name.to_string());
+        c.eq(&format!("{p}: file offset"), Some(m.sub_offsets[k] as u64), b.file_offset);
+        cmp_instrs(c, &p, a, &b.instrs);
+        check_rebuild(c, &p, bytes, m.sub_layout, a, None);
+        let t = build_terminal(m.sub_layout);
+        c.eq(&format!("{p}: terminal bytes"), bytes.get(m.sub_ends[k].wrapping_sub(t.len())..m.sub_ends[k]), Some(&t[..]));
+    }
+    c.eq("timeline count", m.timelines.len(), t.timelines.len());
+    for (k, (a, b)) in m.timelines.iter().zip(&t.timelines).enumerate() {
+        let p = format!("timeline {k}");
+        c.eq(&format!("{p}: file offset"), Some(m.timeline_offsets[k] as u64), b.file_offset);
+        cmp_instrs(c, &p, a, &b.instrs);
+        check_rebuild(c, &p, bytes, m.timeline_layout, a, None);
+        let t = build_terminal(m.timeline_layout);
+        c.eq(&format!("{p}: terminal bytes"), bytes.get(m.timeline_ends[k].wrapping_sub(t.len())..m.timeline_ends[k]), Some(&t[..]));
+    }
+}
+
+/// What the walker must find in a file when truth itself cannot read it back (a truth defect):
+/// per entry (sprite ids, script ids, instruction counts).
+type AnmExpect = Vec<(Vec<u32>, Vec<i32>, Vec<usize>)>;
+
+enum Outcome { Ok(String), Mismatch(Vec<String>), TruthDefect(String) }
+
+fn check_one(kind: Kind, game: Game, name: &str, bytes: &[u8], anm_expect_if_truth_fails: Option<&AnmExpect>) -> Outcome {
+    let mut c = Cmp::new();
+    let summary;
+    macro_rules! walk { ($e:expr) => { match $e { Ok(w) => w, Err(m) => return Outcome::Mismatch(vec![format!("walker error: {m}")]) } } }
+    macro_rules! read { ($e:expr) => { match $e { Ok(t) => t, Err(m) => return Outcome::Mismatch(vec![format!("walker ok but {m}")]) } } }
+    match kind {
+        Kind::Anm => {
+            let w = walk!(walk_anm(bytes, game));
+            summary = format!("entries={} sprites={} scripts={} instrs={}", w.len(), w.iter().map(|e| e.sprites.len()).sum::<usize>(),
+                w.iter().map(|e| e.scripts.len()).sum::<usize>(), w.iter().flat_map(|e| &e.scripts).map(|s| s.instrs.len()).sum::<usize>());
+            match truth_read(name, bytes, |r| truth::AnmFile::read_from_stream(r, game, true)) {
+                Ok(t) => cmp_anm(&mut c, bytes, game, &w, &t),
+                Err(m) => match anm_expect_if_truth_fails {
+                    None => return Outcome::Mismatch(vec![format!("walker ok but {m}")]),
+                    Some(exp) => {
+                        let got: AnmExpect = w.iter().map(|e| (e.sprites.iter().map(|s| s.id).collect(), e.scripts.iter().map(|s| s.id).collect(), e.scripts.iter().map(|s| s.instrs.len()).collect())).collect();
+                        if &got != exp { return Outcome::Mismatch(vec![format!("{m}; and walker {got:?} != expected-from-source {exp:?}")]); }
+                        return Outcome::TruthDefect(format!("{m}; walker agrees with the source: {summary}"));
+                    },
+                },
+            }
+        },
+        Kind::Std => {
+            let w = walk!(walk_std(bytes, game));
+            summary = format!("objects={} quads={} instances={} instrs={}", w.objects.len(), w.num_quads, w.instances.len(), w.script.len());
+            let t = read!(truth_read(name, bytes, |r| truth::StdFile::read_from_stream(r, game)));
+            cmp_std(&mut c, bytes, game, &w, &t);
+        },
+        Kind::Msg | Kind::End => {
+            let lang = if kind == Kind::End { truth::LanguageKey::End } else { truth::LanguageKey::Msg };
+            let w = walk!(walk_msg(bytes, game, kind == Kind::End));
+            summary = format!("table={} scripts={} instrs={}", w.table.len(), w.scripts.len(), w.scripts.iter().map(|s| s.1.len()).sum::<usize>());
+            let t = read!(truth_read(name, bytes, |r| truth::MsgFile::read_from_stream(r, game, lang)));
+            cmp_msg(&mut c, bytes, &w, &t);
+        },
+        Kind::Mission => {
+            let w = walk!(walk_mission(bytes, game));
+            summary = format!("entries={}", w.entries.len());
+            let t = read!(truth_read(name, bytes, |r| truth::MissionMsgFile::read_from_stream(r, game)));
+            cmp_mission(&mut c, bytes, game, &w, &t);
+        },
+        Kind::Ecl => {
+            let w = walk!(walk_ecl(bytes, game));
+            summary = format!("subs={} timelines={} instrs={}", w.subs.len(), w.timelines.len(), w.subs.iter().chain(&w.timelines).map(|s| s.len()).sum::<usize>());
+            let t = read!(truth_read(name, bytes, |r| truth::OldeEclFile::read_from_stream(r, game)));
+            cmp_ecl(&mut c, bytes, &w, &t);
+        },
+    }
+    if c.errs.is_empty() { Outcome::Ok(format!("{summary} comparisons={}", c.n)) } else { Outcome::Mismatch(c.errs) }
+}
+
+// ---- sources compiled for the selftest (raw ins_N names; @blob keeps them independent of signatures) ----
+
+const SRC_ANM_ENTRY0: &str = r#"
+entry {
+    path: "subdir/file.png",
+    HAS_DATA
+    img_width: 8, img_height: 4, img_format: 3,
+    memory_priority: 10,
+    EXTRA0
+    sprites: {
+        sprite0: {id: 0, x: 0.0, y: 0.0, w: 512.0, h: 480.0},
+        sprite1: {id: 1, x: 1.0, y: 2.0, w: 3.0, h: 4.0},
+        sprite2: {id: 7, x: 0.5, y: 0.25, w: 12.0, h: 48.0},
+    },
+}
+"#;
+const SRC_ANM_ENTRY1: &str = r#"
+entry {
+    path: "subdir/a-much-longer-file-name-than-16-bytes.png",
+    has_data: false,
+    img_width: 128, img_height: 64, img_format: 3,
+    memory_priority: 0,
+    sprites: {
+        sprite8: {x: 0.0, y: 0.0, w: 512.0, h: 480.0},
+        sprite9: {x: 1.0, y: 2.0, w: 3.0, h: 4.0},
+        sprite10: {x: 0.0, y: 0.0, w: 512.0, h: 480.0},
+    },
+}
+"#;
+const SRC_ANM06_SCRIPTS0: &str = r#"
+script 5 script0 {
+    ins_1(@blob="01000000");
+10:
+    ins_2(1.0, 2.0);
+    ins_0();
+}
+script script1 {
+    ins_3(@blob="ff000000");
+    ins_0();
+}
+"#;
+const SRC_ANM06_SCRIPTS1: &str = r#"
+script script2 {
+    ins_9(1.0, 2.0, 3.0);
+    ins_15();
+}
+script -3 script3 {
+20:
+    ins_15();
+}
+"#;
+const SRC_ANM07_SCRIPTS0: &str = r#"
+script 5 script0 {
+    ins_3(@blob="01000000");
+10:
+    ins_0();
+    ins_7(@mask=0b11, @blob="00401c46 00002041");
+}
+script script1 {
+    ins_0();
+-5:
+    ins_1();
+}
+"#;
+const SRC_ANM07_SCRIPTS1: &str = r#"
+script script2 {
+    ins_2();
+}
+script -3 script3 {
+20:
+    ins_1();
+}
+"#;
+
+fn anm_source(game: Game, two_entries: bool, first_has_thtx: bool) -> String {
+    let old = anm_has_old_header(game);
+    let e0 = SRC_ANM_ENTRY0
+        .replace("HAS_DATA", if first_has_thtx { "has_data: \"dummy\"," } else { "has_data: false," })
+        .replace("EXTRA0", if old { "path_2: \"subdir/file_a.png\", colorkey: 0x11223344," } else { "offset_x: 3, offset_y: 5, low_res_scale: true," });
+    let (s0, s1) = if game == Game::Th06 { (SRC_ANM06_SCRIPTS0, SRC_ANM06_SCRIPTS1) } else { (SRC_ANM07_SCRIPTS0, SRC_ANM07_SCRIPTS1) };
+    let mut s = format!("{e0}{s0}");
+    if two_entries { s += SRC_ANM_ENTRY1; s += s1; }
+    s
+}
+
+const SRC_STD_OBJECTS: &str = r#"
+    objects: {
+        thing: {
+            layer: 4,
+            pos: [10.0, 20.0, 30.0],
+            size: [11.0, 21.0, 31.0],
+            quads: [
+                rect {anm_script: 3, pos: [1.0, 2.0, 3.0], size: [4.0, 5.0]},
+                rect {anm_script: 4, pos: [1.5, 2.5, 3.5], size: [4.5, 5.5]},
+            ],
+        },
+        other: {
+            layer: 2,
+            pos: [1.0, 2.0, 3.0],
+            size: [1.0, 2.0, 3.0],
+            quads: [
+                QUAD3
+            ],
+        },
+        empty: { layer: 0, pos: [0.0, 0.0, 0.0], size: [0.0, 0.0, 0.0], quads: [] },
+    },
+    instances: [
+        other {pos: [1.0, 2.0, 3.0]},
+        thing {unknown: 5, pos: [4.0, 5.0, 6.0]},
+        other {pos: [7.0, 8.0, 9.0]},
+    ],
+}
+"#;
+
+fn std_source(game: Game) -> String {
+    let head = if std_is_06_format(game) {
+        r#"meta {
+    unknown: 7,
+    stage_name: "dm",
+    bgm: [
+        {path: "bgm/th08_08.mid", name: "dm"},
+        {path: "bgm/th08_09.mid", name: "dn"},
+        {path: " ", name: " "},
+        {path: " ", name: "x"},
+    ],"#
+    } else { "meta {\n    unknown: 7,\n    anm_path: \"stage01.anm\"," };
+    let quad3 = if matches!(game, Game::Th08 | Game::Th09) { "strip {anm_script: 5, start: [1.0, 2.0, 3.0], end: [4.0, 5.0, 6.0], width: 7.0}," }
+        else { "rect {anm_script: 5, pos: [1.0, 2.0, 3.0], size: [4.0, 5.0]}," };
+    let script = if std_is_06_format(game) {
+        "script main {\n    ins_0(1.0, 2.0, 3.0);\n10:\n    ins_3(@blob=\"01000000 02000000 03000000\");\n30:\n    ins_3(@blob=\"00000000 00000000 00000000\");\n}\n"
+    } else {
+        "script main {\n    ins_2(1.0, 2.0, 3.0);\n10:\n    ins_3(@blob=\"01000000 02000000 03000000 04000000 05000000\");\n30:\n    ins_0();\n}\n"
+    };
+    format!("{head}{}{script}", SRC_STD_OBJECTS.replace("QUAD3", quad3))
+}
+
+/// `other` starts with, contains and ends in all-zero instructions (`ins_0()` at time 0), which look like the terminal
+const SRC_MSG: &str = r#"
+meta {
+    table: {
+        0: {script: "script0"FLAGS0},
+        1: {script: "other"FLAGS1},
+        3: {script: "script0"},
+        5: {script: "last"},
+        DEFAULT
+    }
+}
+script script0 {
+    ins_1(@blob="01000200");
+10:
+    ins_0();
+    ins_2(@blob="03000400");
+}
+script other {
+    ins_0();
+    ins_0();
+    ins_4(@blob="2a000000");
+    ins_0();
+}
+script last {
+5:
+    ins_4(@blob="2a000000");
+0:
+    ins_0();
+}
+"#;
+fn msg_source(game: Game, default_entry: bool) -> String {
+    let fl = msg_table_has_flags(game);
+    SRC_MSG.replace("FLAGS0", if fl { ", flags: 256" } else { "" }).replace("FLAGS1", if fl { ", flags: 3" } else { "" })
+        .replace("DEFAULT", if default_entry { "default: {script: \"other\"}," } else { "" })
+}
+
+const SRC_MISSION_095: &str = r#"
+entry { stage: 1, scene: 2, face: 3, point: 4, text: ["abc", "", "line three"] }
+entry { stage: 10, scene: 6, face: 0, point: 1234567, text: ["x", "y", "z"] }
+"#;
+const SRC_MISSION_125: &str = r#"
+entry { stage: 1, scene: 2, player: 1, unknown_1: 7, unknown_2: 9, point_1: 3, point_2: 4,
+        furigana: [[1, 2], [3, 4], [5, 6]], text: ["abc", "", "line three", "d", "e", "f"] }
+entry { stage: 10, scene: 6, player: 0, unknown_1: 0, unknown_2: 0, point_1: 0, point_2: 1234567,
+        furigana: [[0, 0], [0, 0], [0, 0]], text: ["x", "y", "z", "", "", ""] }
+"#;
+
+const SRC_ECL_SUBS: &str = r#"
+void sub0() {
+    ins_0();
+5:
+    {"2"}: ins_4(MASK@blob="10270000 05000000");
+    {"*"}: ins_1(@blob="00000000");
+}
+void sub1() {
+20:
+    ins_35(@blob="00000000 00000000 00000000");
+}
+"#;
+const SRC_ECL_TIMELINE0: &str = r#"
+script timeline0 {
+    ins_0(@arg0=1, @blob="00000000 0000803f 00000040 04000300 02000000");
+10:
+    ins_10(@arg0=0, @blob="01000000 02000000");
+}
+"#;
+const SRC_ECL_TIMELINE1: &str = r#"
+script timeline1 {
+7:
+    ins_10(@arg0=4, @blob="01000000 02000000");
+}
+"#;
+fn ecl_source(game: Game) -> String {
+    let mut s = String::from(SRC_ECL_TIMELINE0);
+    if game != Game::Th06 { s += SRC_ECL_TIMELINE1; } // TH06 allows a single timeline
+    s += &SRC_ECL_SUBS.replace("MASK", if game == Game::Th06 { "" } else { "@mask=0b1, " });
+    s
+}
+
+fn game_of_filename(name: &str) -> Option<Game> {
+    let prefix = name.split('-').next()?;
+    prefix.parse::<Game>().ok()
+}
+
+pub fn selftest() -> i32 {
+    let mut cases: Vec<(Kind, Game, String, Vec<u8>, Option<AnmExpect>)> = vec![];
+    let mut machinery_errors = 0;
+
+    // 1. the repository's binary test files
+    let mut paths: Vec<std::path::PathBuf> = vec![];
+    for dir in ["/repo/tests/integration/bits-2-bits", "/repo/tests/integration/resources"] {
+        match std::fs::read_dir(dir) {
+            Ok(rd) => paths.extend(rd.filter_map(|e| e.ok()).map(|e| e.path()).filter(|p| p.is_file())),
+            Err(e) => { println!("MACHINERY cannot list {dir}: {e}"); machinery_errors += 1; },
+        }
+    }
+    paths.sort();
+    for p in paths {
+        let name = p.file_name().unwrap().to_string_lossy().to_string();
+        let kind = match p.extension().and_then(|e| e.to_str()) { Some("anm") => Kind::Anm, Some("std") => Kind::Std, Some("msg") => Kind::Msg, _ => continue };
+        let Some(game) = game_of_filename(&name) else { println!("MACHINERY no game prefix in {name}"); machinery_errors += 1; continue };
+        match std::fs::read(&p) {
+            Ok(bytes) => cases.push((kind, game, p.to_string_lossy().to_string(), bytes, None)),
+            Err(e) => { println!("MACHINERY cannot read {}: {e}", p.display()); machinery_errors += 1; },
+        }
+    }
+    if cases.len() < 25 { println!("MACHINERY only {} repository files found", cases.len()); machinery_errors += 1; }
+
+    // 2. files compiled here from small sources
+    let g = |s: &str| s.parse::<Game>().expect("game");
+    let two_entry_expect_06: AnmExpect = vec![(vec![0, 1, 7], vec![5, 6], vec![3, 2]), (vec![8, 9, 10], vec![7, -3], vec![2, 1])];
+    let mut compiled: Vec<(Kind, Game, &str, String, Option<AnmExpect>)> = vec![
+        (Kind::Anm, g("th06"), "anm th06 1 entry", anm_source(g("th06"), false, false), None),
+        (Kind::Anm, g("th06"), "anm th06 2 entries, first with THTX", anm_source(g("th06"), true, true), None),
+        // truth cannot read this file back (see walk_anm docs): the walker is checked against the source instead
+        (Kind::Anm, g("th06"), "anm th06 2 entries", anm_source(g("th06"), true, false), Some(two_entry_expect_06)),
+        (Kind::Anm, g("th07"), "anm th07 2 entries", anm_source(g("th07"), true, false), None),
+        (Kind::Anm, g("th10"), "anm th10 2 entries, first with THTX", anm_source(g("th10"), true, true), None),
+        (Kind::Anm, g("th12"), "anm th12 2 entries", anm_source(g("th12"), true, false), None),
+        (Kind::Anm, g("th12"), "anm th12 2 entries, first with THTX", anm_source(g("th12"), true, true), None),
+        (Kind::Anm, g("th17"), "anm th17 2 entries", anm_source(g("th17"), true, false), None),
+        (Kind::Mission, g("th095"), "mission th095", SRC_MISSION_095.to_string(), None),
+        (Kind::Mission, g("th125"), "mission th125", SRC_MISSION_125.to_string(), None),
+    ];
+    for gm in ["th06", "th08", "th095", "th12"] { compiled.push((Kind::Std, g(gm), "std", std_source(g(gm)), None)); }
+    for gm in ["th06", "th08", "th09", "th12"] {
+        compiled.push((Kind::Msg, g(gm), "msg", msg_source(g(gm), false), None));
+        compiled.push((Kind::Msg, g(gm), "msg with default", msg_source(g(gm), true), None));
+    }
+    compiled.push((Kind::End, g("th12"), "ending msg", msg_source(g("th12"), false), None));
+    for gm in ["th06", "th07", "th08", "th09", "th095"] { compiled.push((Kind::Ecl, g(gm), "ecl", ecl_source(g(gm)), None)); }
+    for (kind, game, label, src, expect) in compiled {
+        let out = drive::compile(Tool::new(kind, game), src.as_bytes(), &CompileOpts::default());
+        let name = format!("<compiled: {label} ({})>", game.as_str());
+        match out.bytes {
+            Some(bytes) => cases.push((kind, game, name, bytes, expect)),
+            None => {
+                println!("MACHINERY {name}: source did not compile: {}{}", out.diag.lines().take(6).collect::<Vec<_>>().join(" | "), out.panic.map(|p| p.text).unwrap_or_default());
+                machinery_errors += 1;
+            },
+        }
+    }
+
+    // 3. compare
+    let (mut ok, mut bad, mut defects) = (0, 0, 0);
+    for (kind, game, name, bytes, expect) in &cases {
+        match check_one(*kind, *game, name, bytes, expect.as_ref()) {
+            Outcome::Ok(s) => { ok += 1; println!("ok {name} [{:?} {}] {s}", kind, game.as_str()); },
+            Outcome::TruthDefect(s) => { defects += 1; println!("TRUTH-DEFECT {name} [{:?} {}] {s}", kind, game.as_str()); },
+            Outcome::Mismatch(v) => { bad += 1; println!("MISMATCH {name} [{:?} {}]", kind, game.as_str()); for m in v { println!("    {m}"); } },
+        }
+    }
+
+    // 4. builder/walker round trip on hand-assembled scripts, every layout
+    for layout in [InstrLayout::Anm06, InstrLayout::Anm07, InstrLayout::Std06, InstrLayout::Std10, InstrLayout::Msg, InstrLayout::Ecl06,
+                   InstrLayout::Ecl07, InstrLayout::Timeline06, InstrLayout::Timeline08] {
+        let mut a = instr(3, 7, &[1, 2, 3, 4, 5, 6, 7, 8, 9, 10, 11, 12]);
+        let mut b = instr(-2, 300, &[0; 12]);
+        if matches!(layout, InstrLayout::Anm06 | InstrLayout::Msg) { b.opcode = 0xFFFE; } // one signed opcode byte
+        if matches!(layout, InstrLayout::Anm07 | InstrLayout::Ecl06 | InstrLayout::Ecl07) { a.param_mask = 0x8001; }
+        if matches!(layout, InstrLayout::Ecl06 | InstrLayout::Ecl07 | InstrLayout::Timeline08) { a.difficulty = 0x0c; }
+        if layout == InstrLayout::Timeline06 { a.extra_arg = Some(-7); b.extra_arg = Some(0); }
+        let mut file = vec![0xEEu8; 5]; // scripts need not start at 0
+        let mut want = vec![];
+        for i in [&a, &b] {
+            let mut i = i.clone();
+            i.offset = file.len();
+            file.extend(build_instr(layout, &i));
+            i.size = file.len() - i.offset;
+            want.push(i);
+        }
+        file.extend(build_terminal(layout));
+        let r = walk_instrs(&file, 5, None, layout);
+        if r == Ok((want, file.len())) { ok += 1; println!("ok <assembled script {layout:?}> instrs=2"); }
+        else { bad += 1; println!("MISMATCH <assembled script {layout:?}>: walk gave {r:?}"); }
+        // truncation at every length must give Ok or Err, never a panic
+        for n in 0..file.len() {
+            if let Err(p) = crate::common::catch(|| { let _ = walk_instrs(&file[..n], 5, None, layout); }) { bad += 1; println!("MISMATCH <assembled script {layout:?}> truncated to {n}: walker panicked: {}", p.text); }
+        }
+    }
+    // 5. no walker may panic on truncations of any case file
+    let mut trunc = 0;
+    for (kind, game, name, bytes, _) in &cases {
+        let step = (bytes.len() / 400).max(1);
+        for n in (0..bytes.len()).step_by(step) {
+            trunc += 1;
+            let r = crate::common::catch(|| match kind {
+                Kind::Anm => walk_anm(&bytes[..n], *game).is_ok(), Kind::Std => walk_std(&bytes[..n], *game).is_ok(),
+                Kind::Msg | Kind::End => walk_msg(&bytes[..n], *game, false).is_ok(), Kind::Mission => walk_mission(&bytes[..n], *game).is_ok(),
+                Kind::Ecl => walk_ecl(&bytes[..n], *game).is_ok(),
+            });
+            if let Err(p) = r { bad += 1; println!("MISMATCH {name} truncated to {n}: walker panicked: {}", p.text); }
+        }
+    }
+    println!("m2-selftest: {ok} ok, {bad} mismatches, {defects} truth defects (walker verified against the source instead), {trunc} truncations walked without panic, {machinery_errors} machinery errors");
+    if machinery_errors > 0 { 2 } else if bad > 0 { 1 } else { 0 }
+}
